@@ -183,6 +183,38 @@ pub fn run(a: &Args) {
             }
         }
     }
+    if a.thorough() {
+        // every pair of index fields through all 512 x 512 values (others in {0, 511})
+        let sh = [12u32, 21, 30, 39];
+        let mut n = 0usize;
+        for f1 in 0..4 {
+            for f2 in (f1 + 1)..4 {
+                for v1 in 0..512u64 {
+                    n += 1;
+                    if n % a.nshards != a.shard {
+                        continue;
+                    }
+                    for v2 in 0..512u64 {
+                        for rest in 0..4u64 {
+                            let mut raw = (v1 << sh[f1]) | (v2 << sh[f2]);
+                            let mut k = 0;
+                            for g in 0..4 {
+                                if g != f1 && g != f2 {
+                                    if rest >> k & 1 == 1 {
+                                        raw |= 511 << sh[g];
+                                    }
+                                    k += 1;
+                                }
+                            }
+                            let x = sext48(raw | 0xabc);
+                            guarded(&mut r, "C04|index accessors|unexpected-panic", || format!("addr {:#x}", x), |r| check_addr(r, x));
+                        }
+                    }
+                }
+            }
+        }
+        r.note("thorough: every pair of index fields through all 512x512 values, the remaining two in {0,511}");
+    }
     r.sample("addr 0xffff800000000000".into());
     r.sample("addr 0x181c0e09abc (indices 3,7,7,9)".into());
     r.note("exhaustive: all 65536 u16 for index/offset constructors; each of the 5 fields through all its values with the other four in {0,1,255,256,511}^4; full 512^4 product not enumerated");
